@@ -111,6 +111,11 @@ fn real_main(args: &[String], scratch: &str) -> i32 {
                     return 2;
                 }
             }
+            let retries = conc::DETERMINISM_RETRIES.load(std::sync::atomic::Ordering::Relaxed);
+            if retries > 0 {
+                ctx.rep.count("sched.determinism_precheck_reexamined", retries);
+                ctx.rep.notes.push("the determinism pre-check of a schedule exploration saw one odd execution and re-examined it (three further executions agreed)".to_string());
+            }
             ctx.rep.count("wall_ms_max", t0.elapsed().as_millis() as u64);
             std::fs::write(&args[6], ctx.rep.to_json()).expect("write report");
             0
